@@ -1,6 +1,7 @@
 import Driver.Util
 import Driver.PyJson
 import Torf.Model.ReadStream
+import Torf.Spec.RoundTrip
 open Lean Torf Torf.Bencode Torf.Codec Torf.ReadStream
 namespace Driver.C05
 
@@ -15,11 +16,8 @@ def jexc (f : α → Json) : Except Err α → Json
 def bvalJson (v : BVal) : Json := pyToJson (raw v)
 def jhex (b : Bytes) : Json := jstr (hexOf b)
 
-/-- every dict key of the value is valid UTF-8 -/
-partial def utf8Keys : BVal → Bool
-  | .dict kvs => kvs.all fun (k, v) => (utf8Dec k).isSome && utf8Keys v
-  | .list l => l.all utf8Keys
-  | _ => true
+-- `utf8Keys` (every dict key valid UTF-8, at every level) is `Torf.ReadStream.utf8Keys` in
+-- `Torf/Spec/RoundTrip.lean`, the hypothesis of `C05_enc_dec` / `C05_dump_read`
 
 def mkEnv (j : Json) : Except String Env := do
   let vok ← getBool j "vok"
